@@ -237,6 +237,7 @@ fn check(prop: &PropDef, args: &Args) -> i32 {
     let mut known_seen: BTreeMap<String, String> = BTreeMap::new();
     let mut samples: Vec<J> = vec![];
     let mut unexplained = 0u64;
+    let mut map_order_retries = 0u64;
     for (i, c) in cases.iter().enumerate() {
         for t in &c.tags {
             *tags.entry(t.to_string()).or_default() += 1;
@@ -249,11 +250,24 @@ fn check(prop: &PropDef, args: &Args) -> i32 {
             samples.push(json!({"case": c.model_line(i), "src": c.src, "impl": impl_ans[i], "model": model_ans[i]}));
         }
         let pred = (prop.predicate)(c, &impl_ans[i]);
-        let differs = if c.tags.contains(&"unordered") {
+        let mut differs = if c.tags.contains(&"unordered") {
             run::normalize_unordered(&impl_ans[i]) != run::normalize_unordered(&model_ans[i])
         } else {
             impl_ans[i] != model_ans[i]
         };
+        if differs && c.payload.contains("(comp ") && c.payload.contains("(map (") {
+            // A macro may be ranging over a map: Rust's HashMap iterates in a per-instance random
+            // order, the model in insertion order. The property leaves the order unspecified, so
+            // the model's answer is admissible iff some iteration order of the implementation
+            // produces it: re-run (each run draws fresh hash seeds).
+            for _ in 0..40 {
+                if run::impl_answer(c) == model_ans[i] {
+                    differs = false;
+                    map_order_retries += 1;
+                    break;
+                }
+            }
+        }
         if differs {
             disagreements += 1;
         }
@@ -312,6 +326,7 @@ fn check(prop: &PropDef, args: &Args) -> i32 {
         "samples": samples,
         "traces_validated_against_impl": cases.len(),
         "disagreements_checked": disagreements,
+        "map_iteration_order_reruns": map_order_retries,
         "corpus_cases": n_corpus,
         "input_distribution": {"generator_tags": tags, "implementation_outcome_classes": classes},
         "exhaustive": false,
